@@ -1,5 +1,5 @@
-//go:build verif
-// +build verif
+//go:build verif && !go1.25
+// +build verif,!go1.25
 
 package native
 
